@@ -13,6 +13,11 @@ A second pool ("forms", rt/c12_forms.py) writes the faulty tag in long, partiall
 and with a namespace prefix (schema ts:8.3.0) and sends it through the string, sidecar and table entry points: the fragment
 a message quotes must be source_text[char_index:char_index_end] of the annotation AS WRITTEN
 (C12.message.quotes_the_located_fragment).
+A third pool ("modified") parses annotations that use definitions whose content draws a tag-level issue, modifies the
+parsed string (expand_defs, shrink_defs, remove_definitions, HedGroup.replace / remove of a child) and validates it with the
+string pushed as HED_STRING context (alone and as a member of HedString.from_hed_strings), and validates tables rewritten by
+df_util.expand_defs / shrink_defs: offsets stay inside the validated text and on the quoted fragment; a tag that is not
+written in the validated text (it comes from the definition's text / the replacement's text) carries no offsets.
 Every issue returned is checked by an independent monitor (own tokenizer for tag/group spans), every issue list by the
 list-level relations of the property (errors-only = error subset, sort, export, re-decoration).
 """
@@ -369,7 +374,7 @@ def check_returned_order(w, issues, inp, entry):
 # entry points
 # ------------------------------------------------------------------------------------------------------------------
 _count = {"issues": 0, "with_offsets": 0, "sub_tag": 0, "sorted_lists": 0, "quoted": 0, "quoted_no_offsets": 0, "whole": 0,
-          "whole_group": 0, "returned_lists": 0, "returned_multi_key": 0}
+          "whole_group": 0, "returned_lists": 0, "returned_multi_key": 0, "foreign": 0}
 _pool_for_sort = []
 _raised = []   # inputs on which an entry point raised: C12 says nothing about them (C07/C08 do); reported, not judged
 
@@ -705,8 +710,204 @@ def order_tables(quick):
             yield kinds, rows, onsets
 
 
+# ------------------------------------------------------------------------------------------------------------------
+# strings MODIFIED after parsing (definition expansion / shrinking, removal of definitions, replacement / removal of a child)
+# ------------------------------------------------------------------------------------------------------------------
+# a tag that draws a tag-level issue wherever it is validated; '#' variants go into definitions that take a value
+MOD_FAULTS = ["Item/Zork", "Blue/Apple", "Weight/3 foo", "Redx", "Item/Object/Blue", "Age/x", "Label/a$b", "Item/Zork/Blah"]
+MOD_FAULTS_VALUE = ["Weight/# foo", "Distance/# zz", "Label/#, Blue/Apple"]
+# what else the definition holds: decides where in the DEFINITION's text the faulty tag sits
+MOD_PADS = ["%s", "Square, %s", "Blue, Green, Square, %s", "%s, Circle", "(Circle, Triangle), Label/some-long-label-text, (Green, %s)",
+            "Label/a-rather-long-label-so-that-the-definition-text-is-longer-than-most-annotations, (Square, (Circle, %s))"]
+# annotations using a definition: {N} the Def tag, {F} the definition's faulty tag written in the annotation itself,
+# {M} another Def tag, {X} the definition written as a Def-expand group, {L} a local definition
+MOD_TEMPLATES = ["{N}", "{N}, Red", "Red, ({N}, Circle)", "({N}, Red), Triangle", "  {N} , Blue/Pear", "{F}, {N}", "({N}, ({F}, Green))",
+                 "Item/Yum, ({N}), Redy", "{N}, ({M}, Red)", "{X}, Red", "Blue/Pear, ({X}, (Green, {F}))", "({M}, Circle), {X}",
+                 "{L}, Blue/Pear, {N}", "{N}, {L}", "(Green, ({N}, Item/Yum)), {M}"]
+MOD_OPS = [("expand",), ("expand", "shrink"), ("shrink",), ("shrink", "expand"), ("expand", "expand"), ("remove_definitions",),
+           ("remove_definitions", "expand"), ("replace_tag",), ("replace_group",), ("remove_tag",), ("expand", "replace_tag"),
+           ("replace_group", "expand"), ("expand", "remove_tag", "shrink")]
+# replacements come from ANOTHER text: their spans are positions in that text
+MOD_FOREIGN = "Green, Square, Circle, Triangle, Label/some-other-long-label, Item/Blorp, (Weight/5 bar, (Blue/Plum, Orange))"
+
+_mod_defs = {}
+
+
+def mod_definitions():
+    """name -> (definition text, contents as written, faulty tag, takes a value); one DefinitionDict of all of them"""
+    if _mod_defs:
+        return _mod_defs["table"], _mod_defs["dict"]
+    from hed.models.definition_dict import DefinitionDict
+    table = {}
+    for a, fault in enumerate(MOD_FAULTS + MOD_FAULTS_VALUE):
+        for b, pad in enumerate(MOD_PADS):
+            value = "#" in fault
+            name = "M%d%s" % (a, "abcdefgh"[b])
+            contents = pad % fault
+            table[name] = {"text": "(Definition/%s%s, (%s))" % (name, "/#" if value else "", contents), "contents": contents,
+                           "fault": fault, "value": value}
+    dd = DefinitionDict([d["text"] for d in table.values()], schema("8.3.0"))
+    missing = [n for n in table if n.casefold() not in dd.defs]
+    if missing or dd.issues:
+        raise AssertionError("workload precondition: definitions not accepted: %r %r" % (missing[:5], dd.issues[:2]))
+    _mod_defs["table"], _mod_defs["dict"] = table, dd
+    return table, dd
+
+
+def mod_fill(template, name, other, table, value="4"):
+    d, o = table[name], table[other]
+
+    def use(n, e):
+        return "Def/%s%s" % (n, "/" + value if e["value"] else "")
+    sub = {"N": use(name, d), "M": use(other, o), "F": d["fault"].replace("#", value),
+           "X": "(Def-expand/%s%s, (%s))" % (name, "/" + value if d["value"] else "", d["contents"].replace("#", value)),
+           "L": "(Definition/Loc%s, (Item/Zork, Square))" % name}
+    return template.format(**sub)
+
+
+def mod_cases(quick, rng):
+    table, _ = mod_definitions()
+    names = list(table)
+    n = 0
+    for k, name in enumerate(names):
+        other = names[(k * 7 + 3) % len(names)]
+        for t, template in enumerate(MOD_TEMPLATES):
+            for o, ops in enumerate(MOD_OPS):
+                n += 1
+                if quick and (k + 2 * t + 3 * o) % 19:
+                    continue
+                if "remove_definitions" in ops and "{L}" not in template and (k + o) % 3:
+                    continue
+                yield {"entry": "modified", "text": mod_fill(template, name, other, table), "ops": list(ops), "pick": n % 5,
+                       "join": ["", "before", "after"][(k + t + o) % 3]}
+
+
+def mod_apply(hs, ops, pick):
+    """apply the modifications to the parsed string; returns the texts of the tags brought in from elsewhere"""
+    from hed import HedString
+    from hed.models.hed_group import HedGroup
+    s = schema("8.3.0")
+    for op in ops:
+        if op == "expand":
+            hs.expand_defs()
+        elif op == "shrink":
+            hs.shrink_defs()
+        elif op == "remove_definitions":
+            hs.remove_definitions()
+        else:
+            tags = [t for t in hs.get_all_tags() if not t.org_tag.lower().startswith(("def/", "def-expand/", "definition/"))
+                    and t._parent is not None]
+            if not tags:
+                continue
+            victim = tags[pick % len(tags)]
+            if op == "remove_tag":
+                hs.remove([victim])
+            else:
+                foreign = HedString(MOD_FOREIGN, s)
+                new = foreign.get_all_tags()[5] if op == "replace_tag" else foreign.groups()[0]
+                HedGroup.replace(victim, new)
+
+
+def run_modified(w, case, count=True):
+    """string entry point (HedString.validate / HedValidator.validate with the string pushed as HED_STRING context) on a
+    string modified after parsing, alone and as one member of a string assembled with HedString.from_hed_strings (the way
+    the table validator assembles the columns of a row)"""
+    from hed import HedString
+    from hed.models.hed_tag import HedTag
+    from hed.validator import HedValidator
+    from hed.errors.error_reporter import ErrorHandler
+    from hed.errors.error_types import ErrorContext
+    s = schema("8.3.0")
+    _, dd = mod_definitions()
+    text, ops, pick, join = case["text"], tuple(case["ops"]), case.get("pick", 0), case.get("join", "")
+    inp = dict(case)
+    res = {}
+    try:
+        for warn in (True, False):
+            hs = HedString(text, s, dd)
+            mod_apply(hs, ops, pick)
+            whole, full = hs, text
+            if join:
+                extra = "Blue/Pear, (Square, Redz)"
+                parts = [HedString(extra, s, dd), hs] if join == "before" else [hs, HedString(extra, s, dd)]
+                whole = HedString.from_hed_strings(parts)
+                full = ",".join([extra, text] if join == "before" else [text, extra])
+            eh = ErrorHandler(check_for_warnings=warn)
+            eh.push_error_context(ErrorContext.HED_STRING, whole)
+            if join:
+                res[warn] = HedValidator(s, def_dicts=dd, definitions_allowed=True).validate(whole, allow_placeholders=False,
+                                                                                             error_handler=eh)
+            else:
+                res[warn] = whole.validate(allow_placeholders=False, error_handler=eh)
+    except Exception as e:  # noqa
+        _raised.append({"input": inp, "exception": repr(e)[:160]})
+        return
+    tokens = {full[a:b] for a, b in spans_of(full)}
+    foreign = 0
+    for warn in (True, False):
+        for i in res[warn]:
+            src = i.get("source_tag")
+            named = src.org_tag if isinstance(src, HedTag) else (
+                src.get_original_hed_string() if hasattr(src, "get_original_hed_string") else None)
+            if named is not None and named not in tokens:
+                # the tag / group named is not written in the validated text (it comes from the definition's text or from
+                # the text the replacement was parsed from): nothing in the validated text to point at
+                foreign += 1
+                _count["foreign"] += 1
+                ok = "char_index" not in i and "char_index_end" not in i and SUFFIX not in i.get("message", "")
+                if not w.check(ok, "C12.offsets.inside_validated_text", dict(inp, warnings=warn), brief(i),
+                               {"validated text": full, "named": named,
+                                "expected": "no offsets: the named tag is not part of the validated text"}):
+                    continue
+            check_issue(w, i, dict(inp, warnings=warn), "string", text=full, d10_path=True)
+    if count:
+        w.case(key=("modified", text, ops, pick, join), nontrivial=foreign > 0,
+               sample={"entry": "modified", "text": text, "ops": list(ops), "codes": [i["code"] for i in res[True]]})
+    check_lists(w, res[True], res[False], inp)
+
+
+def run_modified_table(w, texts, count=True):
+    """table entry point on a table whose HED column was rewritten by df_util.expand_defs / shrink_defs (parse, modify, write
+    back): offsets refer to the text that is in the table now"""
+    import pandas as pd
+    from hed import TabularInput
+    from hed.models import df_util
+    from hed.errors.error_reporter import ErrorHandler
+    s = schema("8.3.0")
+    _, dd = mod_definitions()
+    inp = {"entry": "modified_table", "texts": texts}
+    for step in ("expand", "shrink"):
+        res = {}
+        try:
+            df = pd.DataFrame({"onset": [str(float(k)) for k in range(len(texts))], "duration": ["n/a"] * len(texts),
+                               "HED": list(texts)}, dtype=str)
+            df_util.expand_defs(df, s, dd, columns=["HED"])
+            if step == "shrink":
+                df_util.shrink_defs(df, s, columns=["HED"])
+            cells = list(df["HED"])
+            for warn in (True, False):
+                ti = TabularInput(df.copy(), name="events.tsv")
+                res[warn] = ti.validate(s, extra_def_dicts=dd, name="events.tsv",
+                                        error_handler=ErrorHandler(check_for_warnings=warn))
+        except Exception as e:  # noqa
+            _raised.append({"input": dict(inp, step=step), "exception": repr(e)[:160]})
+            continue
+        if count:
+            w.case(key=("modified_table", tuple(texts), step), nontrivial=bool(res[True]),
+                   sample={"entry": "modified_table", "step": step, "codes": [i["code"] for i in res[True]][:8]})
+        for warn in (True, False):
+            for i in res[warn]:
+                check_issue(w, i, dict(inp, step=step, warnings=warn), "table")
+                hs = i.get("ec_HedString")
+                if hs is not None and "char_index" in i:
+                    w.check(hs.get_original_hed_string() in cells, "C12.offsets.inside_validated_text",
+                            dict(inp, step=step, warnings=warn), hs.get_original_hed_string(), "a cell of the rewritten table")
+            check_returned_order(w, res[warn], dict(inp, step=step, warnings=warn), "table")
+        check_lists(w, res[True], res[False], dict(inp, step=step))
+
+
 SIDECAR_EXTRAS = [
-    {"refcol": {"HED": {"a": "Label/abc, {val0}", "b": "{zzz}, Red", "c": "Red, {cond", "d": "Blue}, Red"}}},
+    {"refcol":{"HED": {"a": "Label/abc, {val0}", "b": "{zzz}, Red", "c": "Red, {cond", "d": "Blue}, Red"}}},
     {"selfref": {"HED": {"a": "{selfref}, Red"}}},
     {"HED": {"HED": {"a": "Red"}}},
     {"nohed": {"Description": "no HED here", "Levels": {"a": "x"}}},
@@ -733,7 +934,9 @@ def run(w: Workload):
               "table entry points: the fragment the message quotes must equal source_text[char_index:char_index_end]; "
               "order: sidecars with columns alpha/beta/gamma x every assignment of fault kinds found at different stages "
               "(per string, whole string, column level, definition collection, structure) and 4-row tables x every arrangement "
-              "of row-level and temporal faults: the returned list is in (file, column, key, row) order")
+              "of row-level and temporal faults: the returned list is in (file, column, key, row) order; modified: (definition "
+              "= faulty tag x its surroundings in the definition) x annotation template x modification sequence, validated "
+              "after the modification")
     texts = pool(w)
     for t in texts:
         run_string(w, t)
@@ -878,6 +1081,32 @@ def run(w: Workload):
                  % (n_sc, len(ORDER_KINDS) - 1, ": every pair + a clean column" if w.quick else " + clean: every ordered triple",
                     n_tb, w.evaluations - before - n_sc - n_tb, _count["returned_lists"], _count["returned_multi_key"]),
            exhaustive=False)
+    # strings modified after parsing
+    before = w.evaluations
+    mcases = list(mod_cases(w.quick, w.rng))
+    for c in mcases:
+        run_modified(w, c)
+    n_mod = w.evaluations - before
+    mtexts = []
+    for c in mcases:
+        if c["text"] not in mtexts and "Definition/" not in c["text"]:
+            mtexts.append(c["text"])
+    if w.quick:
+        mtexts = mtexts[::3]
+    for chunk in chunks(mtexts, 6):
+        run_modified_table(w, chunk)
+    w.part("strings modified after parsing", cases=w.evaluations - before,
+           bound="%d definitions = %d faulty tags (extension warning, bad unit, invalid tag / extension / value / character; %d "
+                 "taking a value) x %d surroundings inside the definition; annotations: %d templates (Def tag at several "
+                 "positions and depths, the faulty tag also written in the annotation, two definitions, written Def-expand "
+                 "groups, a local definition) x %d modification sequences (expand_defs, shrink_defs, remove_definitions, "
+                 "HedGroup.replace of a tag by a tag / group parsed from another text, remove)%s; validated with the modified "
+                 "string as HED_STRING context, alone and as the first / second member of "
+                 "HedString.from_hed_strings (%d cases); issues naming a tag that is not written in the validated text: %d (must carry no "
+                 "offsets); plus %d tables whose HED column was rewritten by df_util.expand_defs / shrink_defs"
+                 % (len(mod_definitions()[0]), len(MOD_FAULTS) + len(MOD_FAULTS_VALUE), len(MOD_FAULTS_VALUE), len(MOD_PADS),
+                    len(MOD_TEMPLATES), len(MOD_OPS), " (quick: every 19th combination)" if w.quick else "", n_mod,
+                    _count["foreign"], w.evaluations - before - n_mod), exhaustive=False)
     # one big cross-file sort
     for k in range(5):
         perm = list(_pool_for_sort)
@@ -910,7 +1139,8 @@ def run(w: Workload):
     w.not_covered += [
         "human-readable printing (get_printable_issue_string*), schema-compliance issues (C14), custom titles in sorting",
         "spreadsheet (xlsx) input, remodeling/CLI wrappers around the same validators",
-        "issues whose source tag was rewritten after parsing (definition expansion, placeholder replacement)",
+        "issues whose source tag was rewritten by placeholder replacement / column-reference insertion inside the validators "
+        "(definition expansion, shrinking, replace and remove on the parsed string are covered)",
     ]
 
 
@@ -929,6 +1159,10 @@ def replay(w: Workload, case: dict):
         run_table(w, inp["rows"], inp.get("sidecar"), on if on else None, count=False, version=ver)
     elif e == "dataset":
         run_dataset(w, inp["strings"], count=False)
+    elif e == "modified":
+        run_modified(w, {k: inp[k] for k in ("entry", "text", "ops", "pick", "join") if k in inp}, count=False)
+    elif e == "modified_table":
+        run_modified_table(w, inp["texts"], count=False)
     elif e == "dataset_layout":
         validate_dataset(w, {k: v for k, v in inp.items() if k in ("entry", "sidecar", "files")}, inp["sidecar"], inp["files"],
                          False, None)
